@@ -23,6 +23,17 @@ MSGS = ["", "m", "Internal Error", "café \U0001F60B", 'q"uo\\te', " lead and tr
 OTHER_EXC = ("ValueError", "KeyError", "RuntimeError", "ZeroDivisionError", "Custom", "FeatureRequestError",
              "AttributeError")
 I32 = (-2 ** 31, 2 ** 31 - 1)
+# `params` of a request as a dimension of every server-side case ("absent" = no member at all).  For a method
+# without a registered type every one of these structures (POk): the answer must not depend on them.
+PSHAPES = ["absent", None, [], {}, {"a": 1, "b": "x"}, {"class": 1}, {"from": "x", "import": 2, "ok": 3},
+           {"content-type": "json"}, {"_meta": {"x": 1}}, {"0": 0, "1": 1}, {"_0": 1, "class": 2, "_1": 3},
+           {"a": {"b": {"class": [1, {"def": None, "x-y": {"_z": 0}}]}}}, [{"a": 1}, {"if": 2}], [1, "x", None],
+           "str", 5, True, {"é": 1, "a b": 2}, {"": 1}, {"kind": "k", "return": {"lambda": []}},
+           [[{"None": 1}]], {"a": [], "b": {}}]
+VALID_POSITION = {"textDocument": {"uri": "file:///c07.txt"}, "position": {"line": 0, "character": 0}}
+# shapes of "any other exception": (name, needs python feature)
+OTHER_SHAPES = ("note1", "notes3", "note-nonascii", "multiline", "syntax", "syntaxloc", "group", "noargs",
+                "intarg", "tuplearg", "ownstr", "chained", "subclass")
 BAD_METHODS = ("textDocument/hover", "textDocument/definition", "workspace/executeCommand",
                "textDocument/completion")
 
@@ -189,7 +200,7 @@ class C07(core.Property):
             nid[0] += 1
             rid = nid[0] if nid[0] % 7 else f"r{nid[0]}"
             c = {"k": "srv", "id": rid, "method": "c07/x", "p": "ok", "target": ["feature", "sync"],
-                 "cancel": False, "outcome": ["ret"]}
+                 "cancel": False, "outcome": ["ret"], "ps": (nid[0] * 7) % len(PSHAPES)}
             c.update(kw)
             cases.append(c)
         def rpc_outcome(r, variant):
@@ -217,6 +228,15 @@ class C07(core.Property):
                         if t == "KeyError" and not text.isascii():
                             continue
                         srv(target=[via, kind], outcome=["other", t, cps(text)])
+                for t in OTHER_SHAPES:
+                    for text in ("boom", "", "café \U0001F60B x"):
+                        srv(target=[via, kind], outcome=["other", t, cps(text)])
+                # the params of a request whose method has no registered type never matter
+                for ps in range(len(PSHAPES)):
+                    r = rows[(ps + KINDS.index(kind)) % len(rows)]
+                    srv(target=[via, kind], outcome=rpc_outcome(r, 2 if r["ctor"][0] == "default" else 1), ps=ps)
+                    if via == "feature":
+                        srv(target=[via, kind], outcome=["ret"], ps=ps)
                 if kind != "sync":
                     for o in (["ret"], ["other", "ValueError", cps("late")], rpc_outcome(rows[2], 2)):
                         srv(target=[via, kind], cancel=True, outcome=o)
@@ -238,6 +258,13 @@ class C07(core.Property):
         for i in range(chk.n(12, 100)):
             meth = "zz/" + "".join(rng.choice(alpha) for _ in range(rng.randrange(0, 8)))
             srv(method=meth, target=["unknown"], noparams=bool(i % 2))
+        for ps in range(len(PSHAPES)):
+            srv(method="zz/shape%d" % ps, target=["unknown"], ps=ps)
+            srv(target=["unkcmd", cps("nope%d" % ps)], ps=ps)
+        # standard methods with a valid instance of their type: answered by the handler / -32601
+        srv(typed="textDocument/hover", target=["feature", "sync"], outcome=["ret"])
+        srv(typed="textDocument/definition", method="textDocument/definition", target=["unknown"])
+        srv(typed="textDocument/completion", method="textDocument/completion", target=["unknown"])
         for cmd in ("nope", "", "c07.none", "a b"):
             srv(target=["unkcmd", cps(cmd)])
         for meth in BAD_METHODS:
@@ -575,6 +602,63 @@ class Custom(Exception):
     pass
 
 
+class OwnStr(Exception):
+    def __init__(self, text):
+        super().__init__("ignored", 7)
+        self.text = text
+    def __str__(self):
+        return "<<" + self.text + ">>"
+
+
+class SubKeyError(KeyError):
+    pass
+
+
+def other_exception(kind, text):
+    """-> (exception instance, [texts the reply must carry besides the class name]).
+    The requirement stays loose ("contains"), but holds for every shape."""
+    from pygls.exceptions import FeatureRequestError
+    import builtins
+    def note(e, *ns):
+        for n in ns:
+            if hasattr(e, "add_note"):
+                e.add_note(n)
+        return e
+    if kind == "note1":
+        e = note(ValueError(text), "while resolving the workspace folder")
+    elif kind == "notes3":
+        e = note(Custom(text), "first note", "second note", "zz last note")
+    elif kind == "note-nonascii":
+        e = note(RuntimeError(text), "nöte \U0001F60B")
+    elif kind == "multiline":
+        e = RuntimeError(text + ":\n  line 3: unexpected ']'\n  line 4")
+    elif kind == "syntax":
+        e = SyntaxError(text)
+    elif kind == "syntaxloc":
+        e = SyntaxError(text, ("c07_file.py", 3, 5, "x = (\n"))
+        return e, [text]                      # str() adds the location, format_exception_only prints it apart
+    elif kind == "group":
+        G = getattr(builtins, "ExceptionGroup", None)
+        e = G(text, [ValueError("inner-a"), KeyError("inner-b")]) if G else RuntimeError(text)
+    elif kind == "noargs":
+        e = LookupError()
+    elif kind == "intarg":
+        e = ValueError(42)
+    elif kind == "tuplearg":
+        e = OSError(1, "io " + text + " failed")
+    elif kind == "ownstr":
+        e = OwnStr(text)
+    elif kind == "chained":
+        e = RuntimeError(text)
+        e.__cause__ = KeyError("cause")
+    elif kind == "subclass":
+        e = SubKeyError(text)
+    else:
+        T = {"Custom": Custom, "FeatureRequestError": FeatureRequestError}.get(kind) or getattr(builtins, kind)
+        e = T(text)
+    return e, [str(e)]
+
+
 class Env:
     """Two real endpoints in one process: `srv` answers, `req` asks."""
     def __init__(self, rows):
@@ -595,16 +679,13 @@ class Env:
         self.srv.protocol.set_writer(self.sw)
         self.req.protocol.set_writer(self.rw)
         self.plan = {}
+        self.current = None
         self.gates = {}
         self.errors = []
         env = self
 
-        def key_of(params):
-            p = params
-            if isinstance(p, (list, tuple)) and not hasattr(p, "_asdict"):
-                p = p[0]
-            p = plain(p)
-            return p["key"]
+        def key_of(params):      # one request at a time: the plan does not travel in the params
+            return env.current
 
         def act(params):
             return env.plan[key_of(params)]()
@@ -792,11 +873,9 @@ class Env:
             def r():
                 raise cls(message=msg, code=o[5])
             return r
-        from pygls.exceptions import FeatureRequestError
-        import builtins
-        T = {"Custom": Custom, "FeatureRequestError": FeatureRequestError}.get(o[1]) or getattr(builtins, o[1])
         def r():
-            raise T(text)
+            failure, _ = other_exception(o[1], text)
+            raise failure
         return r
 
     def run_srv(self, c):
@@ -806,22 +885,35 @@ class Env:
         rid = c["id"]
         t = c["target"]
         self.plan[key] = self.make_raiser(c["outcome"])
-        method, params = c["method"], {"key": key}
+        self.current = key
+        shape = PSHAPES[c.get("ps", 4) % len(PSHAPES)]
+        absent = isinstance(shape, str) and shape == "absent"
+        method, params = c["method"], (None if absent else shape)
+        args = None if absent else [shape]
         kind = None
         if t[0] == "feature" and c["p"] == "ok":
             kind = t[1]
             method = "c07/" + kind
         elif t[0] == "command":
             kind = t[1]
-            method, params = "workspace/executeCommand", {"command": "c07." + kind, "arguments": [{"key": key}]}
+            method, params = "workspace/executeCommand", {"command": "c07." + kind, "arguments": args}
         elif t[0] == "unkcmd":
-            method, params = "workspace/executeCommand", {"command": "".join(map(chr, t[1])), "arguments": [{"key": key}]}
-        text = "".join(map(chr, t[1])) if t[0] == "unkcmd" else (
-            "".join(map(chr, c["outcome"][2])) if c["outcome"][0] == "other" else
-            "" if c["outcome"][0] == "rpc" else None)       # rpc: a constructor that raises is "any other exception"
+            method, params = "workspace/executeCommand", {"command": "".join(map(chr, t[1])), "arguments": args}
+        # what the -32603 reply has to carry: the class name and the text of the exception
+        if t[0] == "unkcmd":
+            need = ["KeyError", "".join(map(chr, t[1]))]
+        elif c["outcome"][0] == "other" and c["outcome"][1] != "ctor":
+            ex, texts = other_exception(c["outcome"][1], "".join(map(chr, c["outcome"][2])))
+            need = [type(ex).__name__] + texts
+        elif c["outcome"][0] == "other":
+            need = ["AttributeError", "".join(map(chr, c["outcome"][2]))]
+        elif c["outcome"][0] == "rpc":
+            need = []            # rpc: a constructor that raises is "any other exception"
+        else:
+            need = None
         # the requester writes the request frame ...
         n_r = len(self.rw.frames)
-        if c["p"] == "badv":     # params that do not structure as the method's type: patched into the frame
+        if c["p"] == "badv" or c.get("typed"):     # method and params are patched into the frame below
             fut = rp.send_request("c07/ask", {"key": key}, msg_id=rid)
         elif method == "workspace/executeCommand":
             fut = rp.send_request(method, self.types.ExecuteCommandParams(command=params["command"],
@@ -832,7 +924,10 @@ class Env:
         if c["p"] == "badv":
             req_body["method"] = method
             req_body["params"] = [{"textDocument": 5}, {"position": {"line": "x"}}, [1, 2], "str"][c.get("shape", 0)]
-        if c.get("noparams"):
+        if c.get("typed"):      # a valid instance of the type registered for a standard method
+            req_body["method"] = c["typed"]
+            req_body["params"] = VALID_POSITION
+        elif (c.get("noparams") or absent) and c["p"] != "badv" and method != "workspace/executeCommand":
             req_body.pop("params", None)
         if c["p"] == "bado":
             req_body["c07extra"] = 1
@@ -880,8 +975,9 @@ class Env:
             e = o["error"]
             m = e.get("message")
             tin = None
-            if text is not None:
-                tin = isinstance(m, str) and (text in m or text in json.dumps(e.get("data"), ensure_ascii=False))
+            if need is not None:
+                hay = (m if isinstance(m, str) else "") + "\n" + json.dumps(e.get("data"), ensure_ascii=False)
+                tin = isinstance(m, str) and all(x in hay for x in need)
             ro = ["error", e.get("code"), cps(m) if isinstance(m, str) else ["?"], data_index(e.get("data")), tin]
         else:
             ro = ["result"]
